@@ -136,6 +136,12 @@ class Property:
     def extra_evidence(self, merged):
         return {}
 
+    fuzz_target = None
+
+    def fuzz_seeds(self):
+        """initial corpus files (bytes) for the property's fuzz target"""
+        return ()
+
     def post(self, ctx):
         """optional whole-run step after generation in worker 0 (returns list of (case, failure))"""
         return []
@@ -350,6 +356,27 @@ def run_check(pid, tier, seed, replay=None):
         'wall_s': round(wall, 2),
         'violations': len(violations),
     }
+    # coverage-guided tier (thorough only): cargo-fuzz target with the oracle inside the target
+    if tier == 'thorough' and getattr(prop, 'fuzz_target', None) and not violations:
+        from . import fuzz
+        secs = int(os.environ.get('VERIF_FUZZ_SECONDS', '300'))
+        fr = fuzz.run_campaign(prop.fuzz_target, secs, seed, seeds=prop.fuzz_seeds())
+        ev['coverage']['fuzz'] = {k: v for k, v in fr.items() if k != 'crashes'}
+        ev['coverage']['fuzz']['target'] = prop.fuzz_target
+        ev['coverage']['fuzz']['crashes'] = len(fr.get('crashes', []))
+        if 'build_failed' in fr:
+            merged['errors'].append('fuzz target build failed:\n' + fr['build_failed'])
+        for c in fr.get('crashes', []):
+            if c['kind'] in ('timeout', 'oom', 'slow'):
+                merged['inconclusive'].append('fuzz %s artifact %s' % (c['kind'], c['path']))
+            else:
+                print('VIOLATION property=%s replay=%s' % (pid, c['path']))
+                print('  fuzz target %s: %s' % (prop.fuzz_target, c['message']))
+                ev['violations'] += 1
+        if ev['violations'] and not violations:
+            ev['wall_s'] = round(time.time() - t0, 2)
+            json.dump(ev, open(os.path.join(VERIF, 'evidence', pid + '.json'), 'w'), indent=1, sort_keys=True, default=str)
+            return 1
     try:
         ev['coverage'].update(prop.extra_evidence(merged))
     except Exception:
@@ -386,7 +413,21 @@ def run_check(pid, tier, seed, replay=None):
 
 
 def run_replay(prop, path):
-    data = json.load(open(path))
+    try:
+        data = json.load(open(path))
+    except (ValueError, UnicodeDecodeError):
+        # not a JSON case: a libFuzzer artifact of this property's fuzz target
+        from . import fuzz
+        if not getattr(prop, 'fuzz_target', None):
+            print('INCONCLUSIVE property=%s replay file is not a case of this check' % prop.id)
+            return 2
+        rc, out = fuzz.replay(prop.fuzz_target, path)
+        if rc == 1:
+            print('VIOLATION property=%s replay=%s' % (prop.id, path))
+        elif rc == 0:
+            print('REPLAY property=%s: input passes on this tree' % prop.id)
+        print(out[-1500:])
+        return rc
     case = data['case'] if 'case' in data else data
     ctx = Ctx(prop, 'quick', 0, 0, 1)
     try:
